@@ -149,6 +149,9 @@ def impl(case):
         v = di.Vector(list(vals), np_dtype(case["dtype"]))
     except Exception as e:
         return {"err": f"{type(e).__name__}: {e}"}
+    from harness import warm
+    if warm.ENABLED:
+        warm.vector_through_history(v)
     res["dclass"] = dclass(v)
     res["dtype"] = str(v.dtype)
     res["ndim"] = int(v.ndim)
